@@ -1,9 +1,28 @@
 import Tup.DrvUtil
-/-! Driver for group E2e (stub; the group's owner fills it in). -/
+import Tup.Model.Upload
+/-! Driver for the end-to-end group (C09, C08). -/
 namespace Tup.Drv.E2e
 open Tup
 
+def parseNats (s : String) : List Nat := if s = "-" then [] else (s.splitOn ",").filterMap String.toNat?
+
+def showSt (st : UpSt) : String := s!"{st.ioDone} {st.bytes} {st.flushedBytes} {boolStr st.marked}"
+
 def handle : List String → String
+  -- upload <chunk lengths> <fault: - | at:kind:after>   kind ∈ io|died
+  | ["upload", chunks, fault] =>
+      let cs := parseNats chunks
+      let f : Option Fault :=
+        if fault = "-" then none
+        else match fault.splitOn ":" with
+          | [a, k, af] => match a.toNat? with
+              | some n => some { at_ := n, kind := if k = "died" then .died else .ioError, after := af = "1" }
+              | none => none
+          | _ => none
+      match runUpload cs f with
+      | .ok st => s!"ok {showSt st} {(sendCalls cs).length}"
+      | .error (.ioError, st) => s!"ioerror {showSt st} {(sendCalls cs).length}"
+      | .error (.died, st) => s!"died {showSt st} {(sendCalls cs).length}"
   | _ => "bad"
 
 end Tup.Drv.E2e
